@@ -1112,13 +1112,17 @@ impl<T: RadixSortable> AdvancedRadixSort<T> {
 
     /// Select the optimal sorting strategy based on data characteristics
     fn select_strategy(&self, data: &[T]) -> Result<SortingStrategy> {
-        // If a specific strategy is forced, use it
+        // If a specific strategy is forced, use it. Forcing `Adaptive` asks for the
+        // adaptive selection below (it is not a concrete strategy `sort` could execute).
+        let forced_adaptive = self.config.force_strategy == Some(SortingStrategy::Adaptive);
         if let Some(strategy) = self.config.force_strategy {
-            return Ok(strategy);
+            if !forced_adaptive {
+                return Ok(strategy);
+            }
         }
 
         // If adaptive strategy is disabled, default to LSD radix sort
-        if !self.config.adaptive_strategy {
+        if !self.config.adaptive_strategy && !forced_adaptive {
             return Ok(SortingStrategy::LsdRadix);
         }
 
